@@ -247,3 +247,48 @@ def feasible_armed_reach(g, arm, disarm, targets, limit=40000):
                     continue
             stack.append((q, env, armed, path + [q] if len(path) < 80 else path))
     return None
+
+
+def returns_under_pins(g, pins, limit=20000):
+    """Three-valued values the root function can return when the results of the calls in `pins` (node idx -> T/F) are
+    fixed: every feasible path from the entry is walked (boolean locals tracked, definitely-false edges pruned)."""
+    f = g.func
+    out = set()
+    seen = set()
+    stack = [(g.entry, {})]
+    steps = 0
+    while stack:
+        p, env = stack.pop()
+        steps += 1
+        if steps > limit:
+            out.add(U)
+            break
+        key = (p.id, tuple(sorted(env.items())))
+        if key in seen:
+            continue
+        seen.add(key)
+        n = p.n
+        if n is not None and p.f is f and p.ctx is g.root_ctx:
+            for (vid, strong, vx) in defs_in_node(f, n):
+                if n['k'] == 'declstmt':
+                    d = [d for d in n['decls'] if d['id'] == vid][0]
+                    if 'init' in d and is_bool_var_type(d['t']):
+                        env = dict(env)
+                        env[vid] = eval3(f, d['init'], env, pins)
+                elif n['k'] == 'binop' and n['op'] == '=':
+                    if is_bool_var_type(f.nodes[n['lhs']].get('t') or ''):
+                        env = dict(env)
+                        env[vid] = eval3(f, n['rhs'], env, pins)
+                elif vid in env:
+                    env = dict(env)
+                    env[vid] = U
+            if n['k'] == 'return':
+                out.add(eval3(f, n.get('e'), env, pins) if n.get('e') is not None else U)
+                continue
+        for (q, lab) in p.succ:
+            if lab and isinstance(lab[0], int) and lab[1] is f and p.ctx is g.root_ctx:
+                cv = eval3(f, lab[0], env, pins)
+                if cv is not U and cv != lab[2]:
+                    continue
+            stack.append((q, env))
+    return out
